@@ -265,6 +265,11 @@ Drop for
 FullSync<'a, ItemType, OgreAllocatorType, BUFFER_SIZE, MAX_STREAMS> {
     fn drop(&mut self) {
         self.streams_manager.cancel_all_streams();
+        // release the events still enqueued while the `allocator` they point to is alive
+        // (fields are dropped in declaration order: `allocator` would go before the queues holding the `OgreArc`s)
+        for dispatcher_manager in self.dispatcher_managers.iter() {
+            while dispatcher_manager.consume_movable().is_some() {}
+        }
     }
 }
 
